@@ -226,9 +226,21 @@ async fn run_inner(sc: &TimeScenario) -> Outcome {
     let mut first_poll = true;
     let mut events = 0usize;
     let mut advanced_since_pending = false;
+    // a busy executor: once per history a woken task may be left unpolled
+    // until one more event has happened (a deadline and a grant can then both
+    // be ready at the same poll)
+    let mut may_defer = true;
+    let mut deferred = false;
     loop {
         // poll when woken (the first poll always happens)
-        if task.woken() || first_poll {
+        let mut poll_now = task.woken() || first_poll;
+        if poll_now && !first_poll && may_defer && events < sc.max_events && result.is_none() && choose_free(2) == 1 {
+            trace!("t={}ms the woken task is not polled yet (busy executor)", now);
+            may_defer = false;
+            deferred = true;
+            poll_now = false;
+        }
+        if poll_now {
             w(|w| w.seq_actor = Some(who));
             let r = catch_unwind(AssertUnwindSafe(|| task.poll()));
             w(|w| w.seq_actor = None);
@@ -384,7 +396,7 @@ async fn run_inner(sc: &TimeScenario) -> Outcome {
                         c10(w, "wait-timeout-early", format!("Timeout(Wait) at t={}ms before the deadline {}ms", tc, d));
                     }
                     if let Some(p) = deadline_passed_at {
-                        if tc > p {
+                        if tc > p && !deferred {
                             c10(w, "wait-timeout-late", format!("Timeout(Wait) reported at t={}ms; the {}ms deadline had passed at t={}ms", tc, d, p));
                         }
                     }
@@ -444,7 +456,8 @@ async fn run_inner(sc: &TimeScenario) -> Outcome {
                 }
             }
             if let Some(d) = wait_deadline {
-                if !slot_in_time && slot_free_at.map(|t| t > d).unwrap_or(true) && tc > d && !env_started {
+                // (after a late poll both the grant and the deadline were ready: either answer)
+                if !deferred && !slot_in_time && slot_free_at.map(|t| t > d).unwrap_or(true) && tc > d && !env_started {
                     c10(w, "object-after-wait-deadline", "object obtained although no slot became free".into());
                 }
             }
